@@ -122,7 +122,7 @@ func ruleDataMatrixMerge(c *Ctx) {
 			nm := names[len(hdrs)-1-k]
 			n.Bind[idx] = nm
 			bound = append(bound, idx)
-			loops = append(loops, fmt.Sprintf("%s from %s step %s while %s", nm, init, step, n.EdgeCond(hdrs[k], hdrs[k].Succs[0])))
+			loops = append(loops, fmt.Sprintf("%s from %s step %s while %s", nm, init, step, n.LoopCond(hdrs[k])))
 		}
 		a := call.Common().Args
 		sig := fmt.Sprintf("set(%s, %s, %s) in [%s]", n.Norm(a[1]), n.Norm(a[2]), n.Norm(a[3]), strings.Join(loops, "; "))
@@ -197,7 +197,7 @@ func reindexLoop(n *Normer, hdr *ssa.BasicBlock, storeIdx ssa.Value) (first Poly
 		n.env = append(n.env, map[ssa.Value]Poly{xv: xInQ})
 		first = pAdd(pScale(init, a), rest, 1)
 		step = pScale(st, a)
-		cond = n.EdgeCond(hdr, hdr.Succs[0])
+		cond = n.LoopCond(hdr)
 		return first, step, cond, true
 	}
 	return nil, nil, nil, false
